@@ -13,17 +13,16 @@ open Gts.Pars
 
 /-! ### `pars.Quoted('"')` = `pars.Between('"', '"')` -/
 
-/-- the scan of `Between` behind the opening quote: number of bytes up to (excluding) the closing
-quote; a backslash skips the following byte; `none` = end of input before a closing quote -/
-def scanQuoted : Bytes → Nat → Option Nat
-  | [], _ => none
-  | c :: r, k =>
-    if c = 34 then some k
-    else if c = 92 then
-      match r with
-      | [] => none
-      | _ :: r' => scanQuoted r' (k + 2)
-    else scanQuoted r (k + 1)
+/-- the scan of `Between` behind the opening quote, counting the bytes up to (excluding) the
+closing quote; `esc` = the previous byte was a backslash, so this byte is skipped; `none` = end of
+input before a closing quote -/
+def scanQ : Bool → Bytes → Nat → Option Nat
+  | _, [], _ => none
+  | true, _ :: r, k => scanQ false r (k + 1)
+  | false, c :: r, k =>
+    if c = 34 then some k else if c = 92 then scanQ true r (k + 1) else scanQ false r (k + 1)
+
+def scanQuoted (r : Bytes) (k : Nat) : Option Nat := scanQ false r k
 
 /-- `pars.Quoted('"')`: on success the token is the raw text between the quotes (backslashes
 kept) and the state is behind the closing quote; on failure the state is restored -/
